@@ -36,7 +36,12 @@ func (d *DeterministicSampler) Start() error {
 	// Get the actual upper bound - the largest possible value divided by
 	// the sample rate. In the case where the sample rate is 1, this should
 	// sample every value.
-	d.upperBound = math.MaxUint32 / uint32(d.sampleRate)
+	// A rate of 1 or less samples everything (see GetSampleRate) and needs no
+	// bound; dividing in 64 bits keeps rates of 0 or beyond 32 bits from
+	// dividing by zero.
+	if d.sampleRate > 1 {
+		d.upperBound = uint32(math.MaxUint32 / uint64(d.sampleRate))
+	}
 
 	return nil
 }
